@@ -117,7 +117,7 @@ class ForwardMonitor(Monitor):
             if node is not None:
                 if isinstance(c1._impl, IC.Node) and c1._impl._root is not ir1:
                     rep("wrong_root", {"path": list(path)})
-                if id(s) in new_ids and len(old_ids.get(id(s), ())) > 1:
+                if id(s) in new_ids and (len(old_ids.get(id(s), ())) > 1 or len(new_ids.get(id(s), ())) > 1):
                     ctx.stat("forward.ambiguous_identity")
                 elif id(s) in new_ids:
                     if node is not s:
@@ -182,7 +182,7 @@ class ForwardMonitor(Monitor):
                     rep("expr_raises:" + type(ex).__name__, {"path": [list(x) for x in ep], "error": repr(ex)[:300]})
                     continue
                 ctx.stat("forward.evals")
-                if id(e) in new_ids and en is not e and id(s) in new_ids and len(old_ids.get(id(s), ())) == 1 and len(old_ids.get(id(e), ())) == 1:
+                if id(e) in new_ids and en is not e and id(s) in new_ids and len(old_ids.get(id(s), ())) == 1 and len(old_ids.get(id(e), ())) == 1 and len(new_ids.get(id(s), ())) == 1 and len(new_ids.get(id(e), ())) == 1:
                     # the enclosing statement object is shared, hence so is e's position
                     rep("wrong_expr", {"path": [list(x) for x in ep], "expr": str(e)[:80], "forwarded_to": str(en)[:80]})
         # ---- blocks: every statement list, a few sub-ranges
@@ -228,8 +228,13 @@ class ForwardMonitor(Monitor):
                     for k in range(lo, hi)
                     if id(lst[k]) in new_ids
                     and len(old_ids.get(id(lst[k]), ())) == 1
+                    and len(new_ids.get(id(lst[k]), ())) == 1
                     and id(lst[k]) not in mids
                     and not any(inside(lst[k], m) for m in members)
+                    # an *interior* member that left the block (moved elsewhere) mirrors an
+                    # interior deletion, which shrinks the block: accepted, as the
+                    # repository's own tests pin it (test_move_forwarding_for_blocks_*)
+                    and (k == lo or k == hi - 1)
                 ]
                 if lost:
                     rep(
@@ -292,6 +297,10 @@ class ForwardMonitor(Monitor):
         tmp.procs = sess.procs[: k + 1]
         st = random_step(tmp, ctx.rng)
         if st is None:
+            return
+        if st["op"].startswith("std.") or st["op"] in ("partial_eval", "transpose", "add_assertion"):
+            # implicit forwarding is a feature of the primitives' argument processing;
+            # stdlib compositions are plain functions
             return
         has_cursor = any(d.get("k") in ("node", "block", "gap") for d in st["args"])
         if not has_cursor:
